@@ -206,9 +206,9 @@ def main():
     check_star_tie(ck, dist)
     cases = G.exhaustive_small()
     if ck.quick:
-        cases += G.collections(ck.rng, 1500, 3, 5) + G.collections(ck.rng, 250, 6, 6)
+        cases += G.collections(ck.rng, 1500, 3, 5) + G.collections(ck.rng, 250, 6, 6) + G.long_chain_cases(ck.rng, 28, 7)
     else:
-        cases += G.collections(ck.rng, 12000, 3, 5) + G.collections(ck.rng, 3000, 6, 7) + G.collections(ck.rng, 200, 8, 8)
+        cases += G.collections(ck.rng, 12000, 3, 5) + G.collections(ck.rng, 3000, 6, 7) + G.collections(ck.rng, 200, 8, 8) + G.long_chain_cases(ck.rng, 28, 7) + G.long_chain_cases(ck.rng, 12, 8)
     # the constructed family of the known finding is always present
     cases.append(("star", 5, ["XIIII", "ZIIII", "ZZIII", "ZIZII", "ZIIZI", "ZIIIZ", "ZZZZZ"]))
     res = ck.impl("c01", [{"op": "classify", "gens": g} for _, _, g in cases], per_case_s=120)
@@ -231,7 +231,7 @@ def main():
     ck.cov["distribution"] = dist
     ck.cov["traces_validated_against_impl"] = len(cases)
     ck.finish(assumptions=["equal invariants (dimension, centre, per-component size/|Z_C|/degree) imply isomorphism: classification theorem arXiv:2408.00081, not proved here",
-                           "closure enumerated, so n<=%d" % (6 if ck.quick else 8)])
+                           "closure enumerated, so n<=%d" % (7 if ck.quick else 8)])
 
 
 if __name__ == "__main__":
